@@ -215,10 +215,11 @@ Definition tab_ok (c : case) : bool :=
   forallb (fun p => (negb (c_one c <=? fst p) || negb (fst p <=? c_wmax c) || (fst p <=? snd p)) && (snd p <=? c_wmax c)) (c_tab c)
   && (c_one c <=? c_w0 c) && (c_w0 c <=? c_wmax c).
 
-(* replays the observed steps; `pend` = a failed connect of the first Open has not been signalled as a
-   fault yet (honest_open for the first Open: it must be, before the clock moves);
+(* replays the observed steps; `pend` = Some d: the connect of the first Open failed and has not been signalled
+   as a fault yet (honest_open for the first Open: it must be, by the time d = start + c_odur at which the
+   failure of that Open is known - a refused connect at once, one that times out after c_odur);
    the result is the number of steps replayed successfully and the final state *)
-Fixpoint replay (c : case) (s : state) (pend : bool) (os : list ostep) (n : Z) : Z * state * bool :=
+Fixpoint replay (c : case) (s : state) (pend : option Z) (os : list ostep) (n : Z) : Z * state * bool :=
   match os with
   | [] => (n, s, true)
   | o :: r =>
@@ -231,12 +232,12 @@ Fixpoint replay (c : case) (s : state) (pend : bool) (os : list ostep) (n : Z) :
           let honest := match o_label o, o_conn o with
                         | LOpenDone ok, Some reach => Bool.eqb ok reach
                         | LOpenDone _, None => true
-                        | LTick _, _ => negb pend
+                        | LTick t, _ => match pend with Some d => t <=? d | None => true end
                         | _, _ => true
                         end in
           let pend' := match o_label o, o_conn o with
-                       | LOpen, Some false => true
-                       | LFault, _ | LClose, _ => false
+                       | LOpen, Some false => Some (now s + c_odur c)
+                       | LFault, _ | LClose, _ => None
                        | _, _ => pend
                        end in
           if outs_ok && st_ok && honest then replay c s' pend' r (n + 1) else (n, s, false)
@@ -244,11 +245,11 @@ Fixpoint replay (c : case) (s : state) (pend : bool) (os : list ostep) (n : Z) :
   end.
 
 Definition check_case (c : case) : bool :=
-  tab_ok c && snd (replay c (init (c_t0 c)) false (c_steps c) 0).
+  tab_ok c && snd (replay c (init (c_t0 c)) None (c_steps c) 0).
 
 (* (number of steps that agreed, model state reached, outputs the model produces for the next label) *)
 Definition explain_case (c : case) :=
-  let '(n, s, ok) := replay c (init (c_t0 c)) false (c_steps c) 0 in
+  let '(n, s, ok) := replay c (init (c_t0 c)) None (c_steps c) 0 in
   (tab_ok c, n, ok, s,
    match nth_error (c_steps c) (Z.to_nat n) with
    | Some o => Some (o_label o, step (next_tab (c_tab c)) fl_add (c_w0 c) (c_odur c) s (o_label o))
